@@ -7,14 +7,18 @@ use std::task::{Context, Poll, Wake, Waker};
 use svh::{parse_args, Mode, Rng, Trace};
 use swimos_runtime::verif::timeout_coord::{coordinator, Receiver, VoteResult, Voter};
 
-struct Noop;
-impl Wake for Noop {
-    fn wake(self: Arc<Self>) {}
+/// Counts the wake-ups delivered to the waker the receiver registered.
+struct Counting(std::sync::atomic::AtomicUsize);
+impl Wake for Counting {
+    fn wake(self: Arc<Self>) {
+        self.0.fetch_add(1, std::sync::atomic::Ordering::SeqCst);
+    }
 }
 
 struct Sys {
     voters: Vec<Option<Voter>>,
     rx: Receiver,
+    wakes: Arc<Counting>,
 }
 
 fn vr(r: VoteResult) -> &'static str {
@@ -27,9 +31,16 @@ fn vr(r: VoteResult) -> &'static str {
 impl Sys {
     fn new(n: usize) -> Option<Sys> {
         let (vs, rx) = coordinator(n)?;
-        Some(Sys { voters: vs.into_iter().map(Some).collect(), rx })
+        Some(Sys { voters: vs.into_iter().map(Some).collect(), rx, wakes: Arc::new(Counting(Default::default())) })
     }
+    /// The result of the operation, followed by ` wake` if it woke the receiver's registered waker.
     fn exec(&mut self, op: &str) -> String {
+        let before = self.wakes.0.load(std::sync::atomic::Ordering::SeqCst);
+        let r = self.exec0(op);
+        let after = self.wakes.0.load(std::sync::atomic::Ordering::SeqCst);
+        if after > before { format!("{} wake", r) } else { r }
+    }
+    fn exec0(&mut self, op: &str) -> String {
         let parts: Vec<&str> = op.split_whitespace().collect();
         match parts.as_slice() {
             ["vote", i] => match self.voters.get(i.parse::<usize>().unwrap()).and_then(|v| v.as_ref()) {
@@ -48,7 +59,7 @@ impl Sys {
                 None => "disabled".into(),
             },
             ["poll"] => {
-                let w = Waker::from(Arc::new(Noop));
+                let w = Waker::from(self.wakes.clone());
                 let mut cx = Context::from_waker(&w);
                 match Pin::new(&mut self.rx).poll(&mut cx) {
                     Poll::Ready(()) => "ready".into(),
